@@ -133,7 +133,8 @@ func HC17_DumpLoad() {
 	x := &hHW{w: NewWorld(NewConfig().WithCapacityIncrement(capX))}
 	// history before the dump: create n, then remove a symbolic sequence
 	// n = 2 lets two removals empty the world before the dump (free list only, no alive entity) in the quick tier too
-	n := [3]int{2, 3, 5}[vChoice("n", 3)]
+	// (the thorough tier reaches the empty world with 3 removals from 3 entities and keeps its former choice set)
+	n := [3]int{3, 5, 2}[vChoice("n", 3-vTier())]
 	for i := 0; i < n; i++ {
 		x.create()
 	}
